@@ -94,7 +94,7 @@ Proof.
   unfold ex_tree. cbn [tree_ok is_num andb]. unfold fl_ok.
   repeat split; try (vm_compute; reflexivity); try (vm_compute; discriminate); try discriminate.
   - constructor; [intros []|constructor].
-  - exists ["?t"]. repeat split; [cbn; lia | discriminate].
+  - exists ["?t"]. repeat split; discriminate.
 Qed.
 
 Example print_examples :
